@@ -431,8 +431,7 @@ hs_na = Literal('NA').setParseAction( \
 # that a NULL within a list *MUST* be explicitly given using the 'N'
 # literal: we cannot support implicit NULLs as they are ambiguous.
 hs_list = GenerateMatch( \
-    lambda ver: Group(Or([ \
-        Suppress(Regex(r'[ *]')), \
+    lambda ver: Group( \
         And([ \
             Suppress(Regex(r'\[ *')), \
             Optional(DelimitedList( \
@@ -441,7 +440,7 @@ hs_list = GenerateMatch( \
             Suppress(Optional(hs_valueSep)), \
             Suppress(Regex(r' *\]')) \
             ]) \
-        ])).setParseAction(lambda toks: toks.asList()))
+        ).setParseAction(lambda toks: toks.asList()))
 # Tag IDs
 hs_id = Regex(r'[a-z][a-zA-Z0-9_]*').setName('id')
 
@@ -506,14 +505,11 @@ def to_dict(tokenlist):
 
 
 hs_dict = GenerateMatch(
-    lambda ver: Or([
-        Suppress(Regex(r'[ *]')),
-        And([
+    lambda ver: And([
             Suppress(Regex(r'{ *')),
             hs_tags[ver],
             Suppress(Regex(r' *}'))
         ])
-    ])
         .setName("dict")
         .setParseAction(to_dict)
 )
